@@ -1970,6 +1970,10 @@ class Tensor:
         self.data.shape = newshape
         self.data.shape = old_shape
 
+        # as with any other operation that involves it, the tensor's
+        # (now stale, differently-shaped) gradient is dropped
+        self.null_grad()
+
         # create placeholders for self and all of its view-children
         graph = _dup.DuplicatingGraph(self)
         # need to iterate over all nodes now before we tinker
